@@ -22,7 +22,7 @@ func init() {
 			"every chain returned by Verify and ValidateWithStupidDetail is checked against the generator's ground truth; soundness only; " +
 			"non-trivial = a call that returned at least one chain of length >= 3; distinct by (returned chains, options)",
 		MinNontrivial:         5000,
-		MinNontrivialThorough: 100000,
+		MinNontrivialThorough: 60000,
 		Assumptions: []string{
 			"ground truth of the PKI factory (who signed what, corruption, CA flag, pathLen, EKUs, validity) — each link is additionally re-verified with Go's crypto/ecdsa / crypto/ed25519",
 			"completeness is not part of the statement: chains the builder misses or duplicates (memoisation) are counted, never asserted",
@@ -522,7 +522,7 @@ var c07UsageSets = []struct {
 
 func runC07(c *core.Ctx) {
 	rng := c.Rng
-	npki := c.PerShard(c.Pick(16000, 300000))
+	npki := c.PerShard(c.Pick(16000, 150000))
 	nopts := c.Pick(4, 6)
 	base := time.Date(2024, 3, 1, 0, 0, 0, 0, time.UTC)
 	for i := 0; i < npki; i++ {
